@@ -5,11 +5,13 @@
   A statement-by-statement port of the seven `run*` handlers *as they are*, including:
   * `ctx.State.Version()` (= height-1, `Env.version`) is what create / purchase / send / renew
     compare with `ExpireHeight`, while sale uses `ctx.Header.Height` (`Env.height`);
-  * `DomainStore.IterateSubDomain` goes through `storage.State.IterateRange`, which enumerates
-    only keys that are in the *committed tree* (values and deletions are then read through the
-    block / session overlay).  A sub-domain created earlier in the same block is therefore not
-    seen by renew / update(deactivate) / purchase / deleteSub(all).  `St.tree` is the set of
-    names whose key is in the tree as of the last commit; `visSub` is the iteration's filter;
+  * `DomainStore.IterateSubDomain` goes through `storage.State.IterateRangeAll` (/repo 487c936),
+    which visits every key of the range that `Get` would find: committed keys and keys written
+    earlier in the same block or transaction, minus pending deletes.  All four sub-name loops of
+    action/ons (update-deactivate, renew, purchase's and deleteSub's DeleteAllSubdomains) go
+    through it, and nothing else in the handlers iterates, so the iteration is over the registry a
+    reader sees (`St.recs`), filtered by the key prefix (`visSub`); block boundaries (`Ev.commit`)
+    do not matter to the registry (`State.IterateRange`, committed keys only, is not used here);
   * `ResetAfterSale` stamps `LastUpdateHeight` with the *version*, the other handlers with the
     header height; the parent's `SetLastUpdatedHeight` in deleteSub is never stored;
   * the block count a payment buys goes through `blocksFor` (action/ons/create.go): the quotient
@@ -76,12 +78,11 @@ deriving Repr
 
 structure St where
   recs : List (Name × Domain)   -- what a reader of the deliver state sees under `d_`
-  tree : List Name              -- names whose key is in the committed tree (last commit)
   bals : List (Acct × Int)      -- balances `b_<addr>_<currency>`
   pool : Int                    -- fee pool `f_00000000000000000000`
 deriving Repr
 
-def St.empty : St := ⟨[], [], [], 0⟩
+def St.empty : St := ⟨[], [], 0⟩
 
 inductive Tx
   | create (owner benef : Addr) (name : Name) (uri : String) (uriOk : Bool) (price : Int) (cur : Cur)
@@ -197,8 +198,8 @@ def nameAllowed (o : Opts) (n : Name) : Bool :=
 
 /-! ## registry primitives -/
 
-/-- the filter of `DomainStore.IterateSubDomain root` on the current state -/
-def visSub (tree : List Name) (root : Name) (n : Name) : Bool := isSubOf n root && tree.contains n
+/-- the filter of `DomainStore.IterateSubDomain root`: every visible name under the key prefix of `root` -/
+def visSub (root : Name) (n : Name) : Bool := isSubOf n root
 
 /-- iterate-and-`Set`: apply `f` to every record selected by `p` -/
 def mapSel (p : Name → Bool) (f : Domain → Domain) : List (Name × Domain) → List (Name × Domain)
@@ -276,7 +277,7 @@ def runUpdate (env : Env) (s : St) (owner benef : Addr) (name : Name) (active : 
     if !uri.isEmpty && !uriOk then .error .badUri else
     let d' : Domain := { d with benef := benef, active := active, lastUpdate := env.height, uri := uri }
     let recs1 := if !active && !isSub name then
-        mapSel (visSub s.tree name) (fun x => { x with active := false }) s.recs else s.recs
+        mapSel (visSub name) (fun x => { x with active := false }) s.recs else s.recs
     .ok { s with recs := upsert recs1 name d' }
 
 /-- action/ons/sale.go runDomainSale -/
@@ -313,7 +314,7 @@ def runPurchase (env : Env) (s : St) (buyer account : Addr) (name : Name) (offer
       | none => .error .debit
       | some b2 =>
         let d' := resetAfterSale d buyer account extend env.version
-        .ok { s with recs := upsert (eraseSel (visSub s.tree name) s.recs) name d',
+        .ok { s with recs := upsert (eraseSel (visSub name) s.recs) name d',
                      bals := b2, pool := s.pool + remain }
     if decide (env.version ≤ d.expire) && d.onSale then
       match d.salePrice with
@@ -369,7 +370,7 @@ def runRenew (env : Env) (s : St) (owner : Addr) (name : Name) (price : Int) (cu
       | some q =>
         let e' := d.expire + q
         let d' : Domain := { d with expire := e', lastUpdate := env.height }
-        .ok { s with recs := mapSel (visSub s.tree name) (fun x => { x with expire := e' }) (upsert s.recs name d'),
+        .ok { s with recs := mapSel (visSub name) (fun x => { x with expire := e' }) (upsert s.recs name d'),
                      bals := b1, pool := s.pool + price }
 
 /-- action/ons/deleteSub.go runDeleteSub -/
@@ -385,7 +386,7 @@ def runDeleteSub (env : Env) (s : St) (owner : Addr) (name : Name) : Except Err 
       | none => .error .notFound
       | some _ => .ok { s with recs := aerase s.recs name }
     else
-      .ok { s with recs := eraseSel (visSub s.tree name) s.recs }
+      .ok { s with recs := eraseSel (visSub name) s.recs }
 
 def handler (env : Env) (s : St) : Tx → Except Err St
   | .create o b n u uo p c => runCreate env s o b n u uo p c
@@ -465,8 +466,8 @@ inductive Ev
   | tx (env : Env) (t : Tx)
   | commit                      -- end of block: the block overlay is written into the tree
 
-/-- Commit: every key a reader sees is now in the tree -/
-def St.commit (s : St) : St := { s with tree := akeys s.recs }
+/-- Commit writes the overlay into the tree; what a reader (and a sub-name iteration) sees is unchanged -/
+def St.commit (s : St) : St := s
 
 def applyEv (s : St) : Ev → St
   | .tx env t => (step env s t).2
@@ -495,24 +496,6 @@ def recOk (recs : List (Name × Domain)) (p : Name × Domain) : Bool :=
 /-- executable form of `RegInv` -/
 def invB (s : St) : Bool := s.recs.all (recOk s.recs)
 
-/-- every sub-name of `root` a reader sees has its key in the committed tree, i.e. none of them
-    was created earlier in the current block -/
-def subsCommitted (s : St) (root : Name) : Bool :=
-  s.recs.all (fun p => !isSubOf p.1 root || s.tree.contains p.1)
-
-/-- the two handlers that must reach *every* sub-name (purchase deletes them, renew moves their
-    expiry) do see them -/
-def cascadeSees (s : St) : Tx → Bool
-  | .purchase _ _ n _ _ => subsCommitted s n
-  | .renew _ n _ _ => subsCommitted s n
-  | _ => true
-
-/-- `cascadeSees` at every transaction of a history -/
-def histSees (s : St) : List Ev → Bool
-  | [] => true
-  | .tx env t :: evs => cascadeSees s t && histSees (step env s t).2 evs
-  | .commit :: evs => histSees s.commit evs
-
 /-- why a successful transaction `tx` was entitled to change (create, modify, delete) record `n` -/
 inductive Auth (env : Env) (s : St) (tx : Tx) (n : Name) : Prop
   /-- signed by the recorded owner of the record itself -/
@@ -527,12 +510,5 @@ inductive Auth (env : Env) (s : St) (tx : Tx) (n : Name) : Prop
   | purchase (b a : Addr) (r : Name) (o : Int) (c : Cur) (d : Domain) : tx = .purchase b a r o c →
       (r = n ∨ isSubOf n r = true) → isSub r = false → alookup r s.recs = some d →
       (d.onSale = true ∨ d.expire < env.version) → Auth env s tx n
-
-/-- histories in which every transaction is alone in its block -/
-def oneTxPerBlock : List Ev → Bool
-  | [] => true
-  | .commit :: evs => oneTxPerBlock evs
-  | .tx _ _ :: .commit :: evs => oneTxPerBlock evs
-  | .tx _ _ :: _ => false
 
 end OLP.Ons
